@@ -570,3 +570,35 @@ def param_layer_terms(tier: str):
                 for lay in layers:
                     out.append(mo(lay(mi(x, q)), p))
     return list(dict.fromkeys(out))
+
+
+# ---------------------------------------------------------------- GROUPS
+def groups_terms(tier: str):
+    """Sums and products whose members fall into two or three groups of a consolidation key (the exponent of NthPower
+    factors, the index of NthRoot factors, the base of Exponential factors, the base of added logarithms, reciprocals,
+    negated terms), with at least two members per group, in several interleavings, over four or five distinct
+    variables, bare and as a factor next to the variable of differentiation."""
+    names = [V(n) for n in ("x", "y", "z", "w", "u")]
+    kinds = {
+        "npow": (lambda v, k: NPow(v, k), (2, 3, 5), "mul"),
+        "root": (lambda v, k: Root(v, k), (2, 3, 5), "mul"),
+        "exp": (lambda v, k: Exp(v, k), (2, 3, 10), "mul"),
+        "log": (lambda v, k: Log(v, k), (2, 3, 10), "add"),
+    }
+    patterns = ["AABB", "ABAB", "ABBA", "AABBC", "ABCAB"] + (["AAABB", "ABABA", "AABBCC"[:5]] if tier == "thorough" else [])
+    out = []
+    for kind, (mk, params, host) in kinds.items():
+        for pat in patterns:
+            ks = {"A": params[0], "B": params[1], "C": params[2]}
+            members = [mk(names[i], ks[ch]) for i, ch in enumerate(pat)]
+            t = Mul(*members) if host == "mul" else Add(*members)
+            out.append(t)
+            if len(pat) == 4:
+                out.append(Mul(t, names[4]) if host == "add" else Mul(*members, names[4]))
+                out.append(Add(t, names[4]))
+    # mixed hosts: reciprocals and negations grouped with plain members
+    x_, y_, z_, w_, u_ = names
+    out += [Mul(Recip(x_), y_, Recip(z_), w_), Mul(x_, Recip(y_), z_, Recip(w_), u_), Add(Neg(x_), y_, Neg(z_), w_),
+            Add(x_, Neg(y_), Neg(z_), w_, u_), Mul(Neg(x_), Neg(y_), z_, Neg(w_)), Mul(NPow(x_, 2), Root(y_, 2), NPow(z_, 2), Root(w_, 2)),
+            Mul(Exp(x_, 2), NPow(y_, 2), Exp(z_, 2), NPow(w_, 2), u_), Add(Log(x_, 2), Mul(C(2), y_), Log(z_, 2), Mul(C(2), w_))]
+    return list(dict.fromkeys(out))
